@@ -15,7 +15,7 @@ import ast
 from ..core import walk_own, norm
 from ..report import Ob, Floor
 from ..abseval import Evaluator, Sym, Opaque
-from ..rules import twin, memo
+from ..rules import twin, memo, plumb, scanner, gens
 from .. import exceptions
 
 ASS = "shexer.core.shexing.strategy.abstract_shexing_strategy:AbstractShexingStrategy."
@@ -27,8 +27,8 @@ def snapshot(d):
     return ("comment-of", d.get("cardinality"), d.get("probability"))
 
 
-def mk_statement(card, prob):
-    return {"cardinality": card, "probability": prob, "st_type": "IRI", "st_property": "http://e/p",
+def mk_statement(card, prob, tag="subject"):
+    return {"tag": tag, "cardinality": card, "probability": prob, "st_type": "IRI", "st_property": "http://e/p",
             "add_comment()": None, "comment_representation()": snapshot, "remove_comments()": None}
 
 
@@ -37,8 +37,10 @@ def check(ctx, tier):
     obs, rows = [], 0
     ev = Evaluator(ctx, watch={"add_comment", "remove_comments"})
     # ------------------------------------------------------------------ D-a
-    f = p.func(ASS + "_change_statement_cardinality_to_all_compliant")
-    for allow in (True, False):
+    # (helper-level tables are evaluated when the helpers exist; the entry-level table D-d below is mandatory and covers
+    #  the same decisions through _tune_list_of_valid_statements however the helpers are organised)
+    f = p.funcs.get(ASS + "_change_statement_cardinality_to_all_compliant")
+    for allow in (True, False) if f is not None else ():
         for card in (1, K, "+"):
             st = mk_statement(card, P_LOW)
             outs = ev.outcomes(f, {"statement": st}, {"self._allow_opt_cardinality": allow, "self._namespaces_dict": {}})
@@ -54,8 +56,8 @@ def check(ctx, tier):
                           "allow_opt=%s, cardinality %r below 100 %% -> %s, probability 1, original figures kept in a comment" % (allow, card, want)
                           if ok and snap_ok else "expected cardinality %s / probability 1 / comment of the original statement; code gives "
                                                  "cardinality=%r probability=%r comments=%s outcomes=%s" % (want, st["cardinality"], st["probability"], com, outs)))
-    g = p.func(ASS + "_modify_cardinalities_of_statements_non_compliant_with_all_instances")
-    for prob, changed in ((1, False), (1.0, False), (P_LOW, True)):
+    g = p.funcs.get(ASS + "_modify_cardinalities_of_statements_non_compliant_with_all_instances")
+    for prob, changed in ((1, False), (1.0, False), (P_LOW, True)) if g is not None else ():
         st = mk_statement(1, prob)
         outs = ev.outcomes(g, {"statements": (st,)}, {"self._allow_opt_cardinality": True, "self._namespaces_dict": {}})
         rows += 1
@@ -64,9 +66,10 @@ def check(ctx, tier):
         obs.append(Ob("D-a", "R-TABLE", "R-TABLE|relaxation-applies|probability=%r" % (prob,), g.loc(), ok,
                       "statement with probability %r is %s" % (prob, "relaxed" if changed else "left untouched") if ok else
                       "probability %r: expected %s, cardinality is now %r" % (prob, "relaxation" if changed else "no change", st["cardinality"])))
-    bad = [x for x in walk_own(g.node) if isinstance(x, (ast.Break, ast.Continue, ast.Return))]
-    obs.append(Ob("D-c", "R-LOOP", "R-LOOP|relax-loop-total", g.loc(), not bad,
-                  "the relaxation loop visits every statement" if not bad else "%s in the relaxation loop" % type(bad[0]).__name__))
+    if g is not None:
+        bad = [x for x in walk_own(g.node) if isinstance(x, (ast.Break, ast.Continue, ast.Return))]
+        obs.append(Ob("D-c", "R-LOOP", "R-LOOP|relax-loop-total", g.loc(), not bad,
+                      "the relaxation loop visits every statement" if not bad else "%s in the relaxation loop" % type(bad[0]).__name__))
     # ------------------------------------------------------------------ D-b
     h = p.func("shexer.core.profiling.strategy.abstract_feature_direction_strategy:AbstractFeatureDirectionStrategy._infer_valid_cardinalities")
     ev2 = Evaluator(ctx)
@@ -118,27 +121,46 @@ def check(ctx, tier):
     t = p.func(ASS + "_tune_list_of_valid_statements")
     for ac in (True, False):
         for de in (True, False):
-            for card in (1, K):
-                st = mk_statement(card, P_LOW)
-                lst = _SortableList([st])
-                outs = ev.outcomes(t, {"valid_statements": lst},
-                                   {"self._all_compliant_mode": ac, "self._disable_exact_cardinality": de, "self._disable_comments": False,
-                                    "self._allow_opt_cardinality": True, "self._namespaces_dict": {}})
-                rows += 1
-                if ac:
-                    want = "?" if card == 1 and not isinstance(card, Sym) else "*"
-                elif de and isinstance(card, Sym):
-                    want = "+"
-                else:
-                    want = card
-                st = ev.finals[0][0]["valid_statements"][0]
-                ok = len(outs) == 1 and st["cardinality"] == want
-                obs.append(Ob("D-d", "R-TABLE", "R-TABLE|tuning|all_compliant=%s,disable_exact=%s,cardinality=%r" % (ac, de, card), t.loc(), ok,
-                              "tuning pipeline: cardinality %r -> %r" % (card, want) if ok else
-                              "expected %r, code gives %r (%s)" % (want, st["cardinality"], outs)))
+            for allow in (True, False):
+                for card in (1, K, "+"):
+                    for prob in (1, P_LOW):
+                        st = mk_statement(card, prob)
+                        other = mk_statement(1, 1, tag="other")       # a second statement: every statement of the list is tuned
+                        lst = _SortableList([st, other])
+                        outs = ev.outcomes(t, {"valid_statements": lst},
+                                           {"self._all_compliant_mode": ac, "self._disable_exact_cardinality": de,
+                                            "self._disable_comments": False, "self._allow_opt_cardinality": allow,
+                                            "self._namespaces_dict": {}})
+                        rows += 1
+                        relaxed = ac and isinstance(prob, Sym)
+                        if relaxed:
+                            want = "?" if (allow and card == 1 and not isinstance(card, Sym)) else "*"
+                        elif de and isinstance(card, Sym):
+                            want = "+"
+                        else:
+                            want = card
+                        fin = ev.finals[0][0]["valid_statements"]
+                        got = [x for x in fin if x.get("tag") == "subject"]
+                        got = got[0] if got else fin[0]
+                        com = [e for o in outs for e in o[2] if e[0] == "add_comment"]
+                        ok = len(outs) == 1 and outs[0][0] == "return" and got["cardinality"] == want and \
+                            (not relaxed or (got["probability"] == 1 and len(com) == 1))
+                        obs.append(Ob("D-d", "R-TABLE", "R-TABLE|tuning|all_compliant=%s,disable_exact=%s,allow_opt=%s,cardinality=%r,p=%r" % (
+                            ac, de, allow, card, prob), t.loc(), ok,
+                            "tuning pipeline: cardinality %r at %r -> %r" % (card, prob, want) if ok else
+                            "cardinality %r at probability %r (all_compliant=%s, disable_exact=%s, allow_opt=%s): expected %r%s, code gives "
+                            "%r, probability %r, %d comment(s) (%s)" % (card, prob, ac, de, allow, want,
+                                                                         " with probability 1 and the original figures in one comment" if relaxed else "",
+                                                                         got["cardinality"], got["probability"], len(com), [o[0] for o in outs])))
     # ------------------------------------------------------------------ D-e
     o_memo, n_memo = memo.check(ctx, "D-e")     # a memo with an incomplete key conflates values (e.g. equal text, other datatype)
     obs += o_memo
+    o_num, n_num = ctx.attempt(plumb.forwarding, ctx, "D-f", "infer_numeric_types_for_untyped_literals",
+                               lambda prm: prm == "allow_untyped_numbers",
+                               [ctx.flow.param("shexer.shaper:Shaper.__init__", "infer_numeric_types_for_untyped_literals")], default=([], 0))
+    obs += o_num
+    obs += ctx.attempt(lambda c, cl: scanner.quoted_token_contract(c, cl)[0], ctx, "D-g", default=[])
+    obs += ctx.attempt(lambda c, cl: gens.check(c, cl)[0], ctx, "D-h", default=[])
     exceptions.apply(obs)
     return {"obs": obs, "floors": [Floor("R-TABLE rows evaluated", rows, 20), Floor("memo sites", n_memo, 3)],
             "explanation": "Decision tables of the relaxation (?, * and probability 1 with the original figures kept), of the offered "
